@@ -11,6 +11,7 @@ import (
 	"bytes"
 	"encoding/json"
 	"fmt"
+	"math"
 	"os"
 	"reflect"
 	"sort"
@@ -74,6 +75,9 @@ func Int32(name string) int32   { return int32(next(name)) }
 func Int(name string) int       { return int(next(name)) }
 func Byte(name string) byte     { return byte(next(name)) }
 func Bool(name string) bool     { return next(name) != 0 }
+
+// Float64 returns a symbolic float64 (given by its IEEE-754 bit pattern in the model).
+func Float64(name string) float64 { return math.Float64frombits(next(name)) }
 
 // IntRange returns a symbolic int in [lo, hi].
 func IntRange(name string, lo, hi int) int { return int(next(name)) }
